@@ -47,6 +47,9 @@ type textFam struct {
 
 func checkC09(c *Ctx) {
 	maxLen := 3
+	if !c.Quick() {
+		maxLen = 4
+	}
 	fam, ok := cachedGenModule(c, "GenText", map[string]int{"MaxLen": maxLen}, "texts.ndjson")
 	if !ok {
 		return
@@ -76,7 +79,7 @@ func checkC09(c *Ctx) {
 	}
 	nmulti := 600
 	if !c.Quick() {
-		nmulti = 12000
+		nmulti = 40000
 		for i, t := range texts {
 			for k := 1; k < len(origins); k++ {
 				items = append(items, item{[]string{t.Content}, t.Type, origins[(i+k+int(c.Seed))%len(origins)]})
@@ -234,7 +237,7 @@ func mulValue(m string) (int, bool) {
 func checkC14(c *Ctx) {
 	maxLen := 3
 	if !c.Quick() {
-		maxLen = 4
+		maxLen = 5
 	}
 	fam, ok := cachedGenModule(c, "GenList", map[string]int{"MaxLen": maxLen}, "lists.ndjson")
 	if !ok {
